@@ -20,7 +20,69 @@ FAMILY = ['modr', 'modr_dmod', 'modr_i2', 'modr_i2_dmod', 'modr_d2', 'modr_d2_dm
           'movd', 'movp/Rn,StepZIDS,R0123,StepZIDS', 'max_ge_r0', 'min_lt_r0', 'max_ge', 'tstb/Rn,StepZIDS,Imm4',
           'alb/Alb,Imm16,Rn,StepZIDS', 'movr/ArRn2,ArStep2,Abh', 'mac1', 'msu', 'msusu', 'add_add', 'sub_sub',
           'add_sub_sv', 'bkrepsto', 'bkreprst', 'banke', 'bankr', 'load_modi', 'load_modj', 'load_stepi', 'load_stepj',
-          'mov_stepi0', 'mov_stepj0', 'sqr_sqr_add3/ArRn2,ArStep2,Ab', 'mma_my_my', 'cbs/ArpRn1,ArpStep1,ArpStep1,CbsCond']
+          'mov_stepi0', 'mov_stepj0', 'sqr_sqr_add3/ArRn2,ArStep2,Ab', 'mma_my_my', 'cbs/ArpRn1,ArpStep1,ArpStep1,CbsCond',
+          # every other handler with an address-register / step operand (multiply-accumulate, vector min/max, alm/alu memory
+          # forms, ...): the post-modification goes through the same StepAddress / RnAndModify, selected by per-instruction flags
+          'add_sub/ArpRn1,ArpStep1,ArpStep1,Ab',
+          'add_sub_i_mov_j/ArpRn1,ArpStep1,ArpStep1,Ab',
+          'add_sub_j_mov_i/ArpRn1,ArpStep1,ArpStep1,Ab',
+          'addhp/ArRn2,ArStep2,Px,Ax',
+          'alm/Alm,Rn,StepZIDS,Ax',
+          'alu/Alu,MemR7Imm16,Ax',
+          'alu/Alu,MemR7Imm7s,Ax',
+          'exp/Rn,StepZIDS',
+          'exp/Rn,StepZIDS,Ax',
+          'max2_vtr_movh/Ax,Bx,ArRn1,ArStep1',
+          'max2_vtr_movh/Bx,Ax,ArRn1,ArStep1',
+          'max2_vtr_movij/Ax,Bx,ArpRn1,ArpStep1,ArpStep1',
+          'max2_vtr_movji/Ax,Bx,ArpRn1,ArpStep1,ArpStep1',
+          'max2_vtr_movl/Ax,Bx,ArRn1,ArStep1',
+          'max2_vtr_movl/Bx,Ax,ArRn1,ArStep1',
+          'max_gt/Ax,StepZIDS',
+          'max_gt_r0/Ax,StepZIDS',
+          'min2_vtr_movh/Ax,Bx,ArRn1,ArStep1',
+          'min2_vtr_movh/Bx,Ax,ArRn1,ArStep1',
+          'min2_vtr_movij/Ax,Bx,ArpRn1,ArpStep1,ArpStep1',
+          'min2_vtr_movji/Ax,Bx,ArpRn1,ArpStep1,ArpStep1',
+          'min2_vtr_movl/Ax,Bx,ArRn1,ArStep1',
+          'min2_vtr_movl/Bx,Ax,ArRn1,ArStep1',
+          'min_le/Ax,StepZIDS',
+          'min_le_r0/Ax,StepZIDS',
+          'min_lt/Ax,StepZIDS',
+          'mma/ArpRn1,ArpStep1,ArpStep1,bool,bool,RegName,bool,bool,bool,bool,SumBase,bool,bool,bool,bool',
+          'mma/ArpRn2,ArpStep2,ArpStep2,bool,bool,RegName,bool,bool,bool,bool,SumBase,bool,bool,bool,bool',
+          'mma_mov/ArRn2,ArStep1,RegName,bool,bool,bool,bool,SumBase,bool,bool,bool,bool',
+          'mma_mov/Axh,Bxh,ArRn1,ArStep1,RegName,bool,bool,bool,bool,SumBase,bool,bool,bool,bool',
+          'mma_mx_xy/ArRn1,ArStep1,RegName,bool,bool,bool,bool,SumBase,bool,bool,bool,bool',
+          'mma_xy_mx/ArRn1,ArStep1,RegName,bool,bool,bool,bool,SumBase,bool,bool,bool,bool',
+          'mov/ArArpSttMod,MemR7Imm16',
+          'mov/ArRn1,ArStep1,SttMod',
+          'mov/Axl,MemR7Imm16',
+          'mov/Axl,MemR7Imm7s',
+          'mov/Imm8s,RnOld',
+          'mov/MemImm8,RnOld',
+          'mov/MemR7Imm16,ArArpSttMod',
+          'mov/MemR7Imm16,Ax',
+          'mov/MemR7Imm7s,Ax',
+          'mov/RnOld,MemImm8',
+          'mov/SttMod,ArRn1,ArStep1',
+          'mov_repc/MemR7Imm16',
+          'mov_repc_to/MemR7Imm16',
+          'mov_sv_app/ArRn1,ArStep1,Bx,SumBase,bool,bool,bool,bool',
+          'mov_sv_app/ArRn1,ArStep1Alt,Bx,SumBase,bool,bool,bool,bool',
+          'movr/Rn,StepZIDS,Ax',
+          'movs/Rn,StepZIDS,Ab',
+          'movsi/RnOld,Ab,Imm5s',
+          'mul/Mul3,R45,StepZIDS,R0123,StepZIDS,Ax',
+          'mul/Mul3,Rn,StepZIDS,Imm16,Ax',
+          'mul_y0/Mul3,Rn,StepZIDS,Ax',
+          'norm/Ax,Rn,StepZIDS',
+          'sub_add/ArpRn1,ArpStep1,ArpStep1,Ab',
+          'sub_add_i_mov_j_sv/ArpRn1,ArpStep1,ArpStep1,Ab',
+          'sub_add_j_mov_i_sv/ArpRn1,ArpStep1,ArpStep1,Ab',
+          'sub_add_sv/ArRn1,ArStep1,Ab',
+          'tst4b/ArRn2,ArStep2',
+          'tst4b/ArRn2,ArStep2,Ax']
 FINISH = dict(rule='address generation theorems for every modulo value in the set x offsets x modes (TLC, exhaustive over '
                    'that domain) + every encoding of the address-modifying families x k boundary-clustered states validated in full')
 
